@@ -83,7 +83,19 @@ func buildWire(c rCfg, realB int, seed int64) (stream []byte, original []byte, e
 	if c.HintBlocks > 0 {
 		hint = int64(c.HintBlocks) * int64(realB)
 	}
-	w := kz.Cfg{Transform: "NONE", Entropy: "NONE", Block: uint(realB), Jobs: 1, Ck: 32, Hint: hint}
+	// block checksums: needed for the "crc" kind (damage that only a checksum can see); otherwise 0 / 32 / 64 in turn, so that
+	// the failures of kind "fail" are met with and without the safety net of a checksum
+	ck := uint(32)
+	hasCrc := false
+	for _, k := range c.Kinds {
+		hasCrc = hasCrc || k == "crc"
+	}
+	if hasCrc {
+		ck = []uint{32, 64}[int(seed&1)]
+	} else {
+		ck = []uint{0, 32, 64, 0}[int(seed&3)]
+	}
+	w := kz.Cfg{Transform: "NONE", Entropy: "NONE", Block: uint(realB), Jobs: 1, Ck: ck, Hint: hint}
 	stream, err = kz.Compress(original, w, nil, nil)
 	if err != nil {
 		return
@@ -111,7 +123,13 @@ func buildWire(c rCfg, realB int, seed int64) (stream []byte, original []byte, e
 			}
 			kzfmt.SetBits(stream, pos, 1, 1^kzfmt.GetBits(stream, pos, 1))
 		case "fail":
-			kzfmt.SetBits(stream, b.OffPreLen, 8*b.DataSize, 0)
+			// a block that its task must report as failed whatever the checksum setting: a length field that no block can have
+			// (zero, or larger than any block of the declared size may become)
+			if (seed>>2)&1 == 0 {
+				kzfmt.SetBits(stream, b.OffPreLen, 8*b.DataSize, 0)
+			} else {
+				kzfmt.SetBits(stream, b.OffPreLen, 8*b.DataSize, (uint64(1)<<uint(8*b.DataSize))-1)
+			}
 		}
 		if k != "ok" && firstBad < 0 {
 			firstBad = i
